@@ -10,7 +10,7 @@ oracle: a stable sorted std::vector twin inside the harness (independent of the 
        nodes (parent links, uniform depth, count <= capacity) and a counting memory manager (no leak after merges)."""
 import os
 
-GEN = ['gen_treenode.json', 'gen_node.json', 'gen_nodeops_i.json', 'gen_nodeops_c.json', 'gen_rebalance.json', 'gen_split.json']
+GEN = ['gen_treenode.json', 'gen_node.json', 'gen_nodeops_i.json', 'gen_nodeops_c.json', 'gen_rebalance.json', 'gen_split.json', 'gen_ordered.json']
 
 #   id: (maxCap, step, blockCount, lin, multi, key, value(''=set), real layout, crew, checkVersion, memory manager, traits)
 #   key kinds: int = trivially relocatable; str = nothrow move, not trivially relocatable (short keys inside the SSO buffer,
@@ -328,6 +328,28 @@ def gen_node_script(r, cid):
             count = max(0, count - 1)
     return head(cid) + ' ' + ' '.join(ops)
 
+def gen_tree_facts(ctx):
+    """T-gen (AST facts, astfacts.py): the pvMergeFast if-chain of TreeSet::MergeTo, the items pvIsOrdered(set, set) compares and the
+    statements of pvRebalance's root-collapse loop are read off the clang AST of the current headers and written to
+    coq/Gen_TreeFacts.v; BTreeFastDecide.v proves the merge choice sound and the collapse loop free of reads of destroyed nodes"""
+    import importlib.util
+    out = os.path.join(ctx.cdir, 'Gen_TreeFacts.v')
+    try:
+        sp = importlib.util.spec_from_file_location('c02_astfacts', os.path.join(ctx.pdir, 'astfacts.py'))
+        m = importlib.util.module_from_spec(sp); sp.loader.exec_module(m)
+        txt = m.tree_facts_text(os.path.join(ctx.pdir, 'inst_ts.cpp'), ctx.repo, ctx.root)
+        if not os.path.exists(out) or open(out).read() != txt:
+            open(out, 'w').write(txt)
+        import hashlib
+        ctx.tie_obligations.append({'name': 'translate Gen_TreeFacts (AST facts: MergeTo fast chain, pvIsOrdered(sets), pvRebalance collapse loop)', 'ok': True,
+                                    'sha256': hashlib.sha256(txt.encode()).hexdigest()[:16]})
+        return True
+    except Exception as e:
+        if os.path.exists(out): os.remove(out)       # a stale fact file must not keep the proofs green
+        ctx.tie_obligations.append({'name': 'translate Gen_TreeFacts', 'ok': False, 'error': str(e)[:400]})
+        ctx.stage('regen', False, 'AST facts: %s' % str(e)[:300])
+        return False
+
 def gen_cases(ctx, scale, modelled_only):
     r = ctx.rng
     cases = []
@@ -501,7 +523,7 @@ def replay(ctx, rp):
     bad = '!' in out[0] or out[0].startswith('<missing')
     if rp.get('model') and not bad:
         # a correspondence violation: re-run the model as well
-        ctx.regen(GEN); ctx.prove()
+        ctx.regen(GEN); gen_tree_facts(ctx); ctx.prove()
         if ctx.stages.get('prove', {}).get('ok') and ctx.extract():
             path = os.path.join(ctx.build, 'replay.model.cases'); open(path, 'w').write(case + '\n')
             rc, lines, e = ctx.run_lines([ctx.model_exe], path)
@@ -513,7 +535,7 @@ def replay(ctx, rp):
 
 def run(ctx):
     scale = 1 if ctx.quick() else 8
-    ctx.trusted += ['tools/cxx2coq.py + clang 14 JSON AST for GetSplitItemIndex / GetCapacity / pvGetLeafMemPoolIndex / Node::AcceptBackItem, Remove, pvAcceptBackItem, pvRemove, pvInitIndexes, GetCount of both layouts incl. the std::copy / std::copy_backward range copies on the index table and the child array (translated as a parallel range copy; the standard no-overlap preconditions of the two algorithms are assumed) / the decision prefix of TreeSet::pvRebalance / the AddSegment trace of Relocator::pvSplitNode; ASSUMED primitive: ItemTraits::ShiftNothrow(begin, shift) on the continuous item array rotates [begin, begin+shift] by one (its proof is C03); skipped: item creator / remover functors; validated through the shape and the node-level byte correspondence',
+    ctx.trusted += ['tools/cxx2coq.py + clang 14 JSON AST for GetSplitItemIndex / GetCapacity / pvGetLeafMemPoolIndex / Node::AcceptBackItem, Remove, pvAcceptBackItem, pvRemove, pvInitIndexes, GetCount of both layouts incl. the std::copy / std::copy_backward range copies on the index table and the child array (translated as a parallel range copy; the standard no-overlap preconditions of the two algorithms are assumed) / the decision prefix of TreeSet::pvRebalance / the AddSegment trace of Relocator::pvSplitNode / pvIsOrdered(iter, iter); props/C02/astfacts.py (own walker over the same clang JSON AST) for the pvMergeFast if-chain of MergeTo, pvIsOrdered(set, set) and the statements of the root-collapse loop of pvRebalance; ASSUMED primitive: ItemTraits::ShiftNothrow(begin, shift) on the continuous item array rotates [begin, begin+shift] by one (its proof is C03); skipped: item creator / remover functors; validated through the shape and the node-level byte correspondence',
                     'extraction: ExtrOcamlBasic only (no Extract Constant; Extraction Blacklist for module names), OCaml 4.13.1, zarith for decimal I/O only',
                     'g++ 12 -std=c++17, harness reaches private members via #define private public',
                     'the hand-written model coq/BTreeModel.v is tied to TreeSet.h by differential execution only (T-cor), on the listed configurations']
@@ -521,6 +543,7 @@ def run(ctx):
                         'parent pointers and the indexed (non-continuous) item permutation are abstracted (paths / item lists); item relocation, exceptions and memory are not modelled (C03/C04)',
                         '1 <= maxCapacity <= 255 (static assert of the source)']
     ctx.regen(GEN)
+    gen_tree_facts(ctx)
     ctx.prove()
     harn = build_harness(ctx)
     if harn is None:
